@@ -22,4 +22,4 @@ For each change i = 1..{n}:
 2. write /tmp/seed_{pid}_out/<i>/demo.py: a small standalone program that exits 0 and prints PASS when the property holds and exits 1 printing what went wrong when it does not; it must FAIL with your change and PASS without it (verify both, with PYTHONPATH pointing at the worktree);
 3. verify the existing tests still pass with the change: `cd /tmp/seed_{pid} && /venv/bin/python -m pytest -q -p no:cacheprovider --timeout=900 --continue-on-collection-errors 2>&1 | tail -8` — the baseline has exactly 5 known failures (tests/test_chemical.py::test_chemical_creation, tests/test_network.py::test_disconnect, two BubblePointBeta doctests, the FlashPackage doctest) and 210 passes; with your change it must be the same 5 failures and 210 passes (the run takes about 20-40 s);
 4. write /tmp/seed_{pid}_out/<i>/notes.md: which clause of the property it breaks, what is needed for it to manifest, and the commands you ran with their outcomes.
-Finish with a clean worktree (`git -C /tmp/seed_{pid} checkout -- .`). Your final message: a short list of the changes (file/function, what manifests it) and confirmation of the verification steps for each.""")
+Do NOT use `git stash` (stashes are shared between worktrees): switch between the clean tree and your change with `git diff > patch.diff; git checkout -- .; git apply patch.diff`. Finish with a clean worktree (`git -C /tmp/seed_{pid} checkout -- .`). Your final message: a short list of the changes (file/function, what manifests it) and confirmation of the verification steps for each.""")
